@@ -190,6 +190,7 @@ class Runner:
                 sm.bind_events_to(ent["target"])
         if op.get("custom_attr"):
             sm.custom_attr = {"n": [tag, 1]}
+            sm._custom_private = ["private", tag]  # user subclasses keep their own state in such attributes
         if op.get("model_holds_machine") and ent.get("model") is not None:
             ent["model"].owner_sm = sm
         if op.get("bind_model") and ent.get("model") is not None:
@@ -405,7 +406,8 @@ class Runner:
                             "start_value": enc(c.start_value)},
                 "orig_options": {"allow": sm.allow_event_without_transition, "state_field": sm.state_field,
                                  "start_value": enc(sm.start_value)},
-                "extra_attr": getattr(c, "custom_attr", None) == getattr(sm, "custom_attr", None)}
+                "extra_attr": getattr(c, "custom_attr", None) == getattr(sm, "custom_attr", None)
+                and getattr(c, "_custom_private", None) == getattr(sm, "_custom_private", None)}
         SIM.rec(k="clone", i=op["inst"], to=tag, info=info)
         ent2 = {"sm": c, "model": c.model, "field": ent["field"], "prog": ent["prog"], "listeners": {}}
         if not info["model_shared"]:
